@@ -770,6 +770,13 @@ class VM:
                 self.cfg.max_item_size < 32:
             raise Unspecified('MERKLEVAL under stack / item limits that the '
                               'documented op sequence hits transiently')
+        # "call OP_DUP then OP_SHA256 twice; move stack item at index 2 to the
+        # top ...": with a single item the sequence fails at the move, the
+        # duplicate having been hashed twice by then
+        if len(self.stack) == 1:
+            only = self._content(self.peek())
+            self.push(hashlib.sha256(hashlib.sha256(only).digest()).digest())
+            raise VMError('MERKLEVAL: no sibling hash under the script')
         script = self._content(self.pop())
         sib = self._content(self.pop())
         h = bytes(a ^ b for a, b in zip(
